@@ -23,7 +23,11 @@ void *vm_malloc(size_t n) {
   void *p;
   vm_nalloc++;
   if (vm_fail_at != 0 && (vm_nalloc == vm_fail_at || (vm_fail_from && vm_nalloc > vm_fail_at))) { vm_failed++; return NULL; }
-#ifndef VERIF_NATIVE
+#if !defined(VERIF_NATIVE) && defined(VM_NO_RECORDS)
+  /* queries whose strings can be exactly 16 or 24 bytes long (concrete long numerals): no typed records, every request a char block */
+  VASSUME(n <= VM_STRBLK); p = malloc(VM_STRBLK);
+  __CPROVER_assume(p != NULL);
+#elif !defined(VERIF_NATIVE)
   if (n == sizeof(struct vm_rec2) && VM_STRBLK < sizeof(struct vm_rec2)) p = malloc(sizeof(struct vm_rec2));
   else if (n == sizeof(struct vm_rec3)) p = malloc(sizeof(struct vm_rec3));
   else { VASSUME(n <= VM_STRBLK); p = malloc(VM_STRBLK); }
